@@ -81,16 +81,53 @@ Definition api_okb (g : ghost) (o : op) : bool :=
 
 (* among the operations that respect the API: the ones that use a scope which
    is not the innermost one in a way the arena has to refuse *)
-Definition must_trap (o : op) : bool :=
+Definition must_trap (c : cfg) (o : op) : bool :=
   match o with
   | Malloc k _ | Cleanup k _ => (0 <? k)%nat
   | Strndup k data | Sprintf k data => (0 <? k)%nat && (N.of_nat (length data) + 1 <? SIZE_LIMIT)
   | Strdup k data => (0 <? k)%nat && (N.of_nat (length (cstr data)) + 1 <? SIZE_LIMIT)
   | Calloc k nmemb size => (0 <? k)%nat && (nmemb * size <? SIZE_LIMIT)
   | Realloc k None _ _ => (0 <? k)%nat
-  | Realloc k (Some _) old new => (0 <? k)%nat && (old <? new)
+  | Realloc k (Some _) old new => (0 <? k)%nat && (c_sv c || (old <? new))
   | _ => false
   end.
+
+(* ---- the parts of [api_okb], by name ---------------------------------------------------------
+   [api_okb g o = lifo_okb o && client_okb g o] (ArenaLive.v, api_okb_split):
+   - [lifo_okb]: scopes are left innermost first (well-bracketed enter/leave, what the
+     arena_scope() macro enforces).  A leave of an enclosing scope ends the scopes nested
+     in it; C19 speaks of nested scopes, so such sequences are outside the property
+     (what the code does with them: ArenaHoles.v, nonlifo_leave_reuse).
+   - [client_okb]: the scope named is open, the arena has not been freed, realloc names a
+     live block with its true size, client writes stay inside live user blocks. *)
+Definition lifo_okb (o : op) : bool :=
+  match o with LeaveAt k => Nat.eqb k 0 | _ => true end.
+
+Definition client_okb (g : ghost) (o : op) : bool :=
+  match o with
+  | LeaveAt k => (k <? depth g)%nat
+  | _ => api_okb g o
+  end.
+
+Definition well_bracketed (ops : list op) : Prop := Forall (fun o => lifo_okb o = true) ops.
+
+(* ---- the one call [api_okb] excludes although the property covers it ---------------------------
+   Shrinking a live block of an inner scope through an outer scope: the result would
+   belong to the outer scope but lies above the inner scope's mark.  The arena has to
+   refuse it (it does since 4eb1227: [c_sv]); [api_full] is [api_okb] plus this call,
+   i.e. realloc of ANY live user block with its true size through ANY open scope. *)
+Definition outer_shrink (g : ghost) (o : op) : bool :=
+  match o with
+  | Realloc k (Some p) old new =>
+      scope_okb g k &&
+      match find (is_user_at p old) (g_blocks g) with
+      | Some b => (lvl_of g k <? b_lvl b)%nat && (new <=? old)
+      | None => false
+      end
+  | _ => false
+  end.
+
+Definition api_full (g : ghost) (o : op) : bool := api_okb g o || outer_shrink g o.
 
 (* scope index, number of bytes and kind of the block an allocating operation asks for *)
 Definition alloc_args (c : cfg) (o : op) : option (nat * N * bool) :=
@@ -185,6 +222,11 @@ Definition R_BAD_EVENT : N := 12.
 Definition R_LEN_RESET : N := 13.
 Definition R_BAD_HANDLE : N := 14.
 Definition R_OUTSIDE_API : N := 15.   (* not a violation: the program left the API at this operation *)
+Definition R_OUTER_SHRINK : N := 16.  (* a shrinking realloc of an inner block through an outer scope returned *)
+
+(* the verdict on an operation that returned although [api_okb] does not hold *)
+Definition outside_code (g : ghost) (o : op) : N :=
+  if outer_shrink g o then R_OUTER_SHRINK else R_OUTSIDE_API.
 
 Definition list_eqb (a b : list N) : bool := beq a b.
 
@@ -236,9 +278,9 @@ Definition check_ending (c : cfg) (g : ghost) (last : option op) (e : ending) : 
   match e, last with
   | Done, None => 0
   | Done, Some _ => R_BAD_EVENT
-  | Trapped, Some o => if negb (api_okb g o) then 0 else if must_trap o then 0 else R_UNEXPECTED_TRAP
+  | Trapped, Some o => if negb (api_okb g o) then 0 else if must_trap c o then 0 else R_UNEXPECTED_TRAP
   | Exited, Some o => if negb (api_okb g o) then 0
-                      else if must_trap o then R_OUTER_NOT_DETECTED
+                      else if must_trap c o then R_OUTER_NOT_DETECTED
                       else if may_exit c o then 0 else R_UNEXPECTED_EXIT
   | Crashed, Some o => if negb (api_okb g o) then 0 else R_CRASH
   | _, None => R_BAD_EVENT
@@ -248,7 +290,9 @@ Definition check_ending (c : cfg) (g : ghost) (last : option op) (e : ending) : 
    returned them (handles are resolved against the observed results).
    Result: None = nothing to object to; Some (i, reason) = operation i violates
    the property.  A program that leaves the API is not judged from that point on
-   (reported as Some (i, R_OUTSIDE_API), which spec_ok accepts). *)
+   (reported as Some (i, R_OUTSIDE_API), which spec_ok accepts) - except for the
+   shrinking realloc of an inner block through an outer scope, which the arena has
+   to refuse: when it returns, R_OUTER_SHRINK is a failure. *)
 Fixpoint spec_walk (c : cfg) (g : ghost) (tbl : list (option loc)) (i : nat)
     (tr : list (hop * oobs)) (last : option hop) (e : ending) : option (nat * N) :=
   match tr with
@@ -265,8 +309,8 @@ Fixpoint spec_walk (c : cfg) (g : ghost) (tbl : list (option loc)) (i : nat)
       match hop_to_op tbl h with
       | None => Some (i, R_BAD_HANDLE)
       | Some o =>
-          if negb (api_okb g o) then Some (i, R_OUTSIDE_API)
-          else if must_trap o then Some (i, R_OUTER_NOT_DETECTED)
+          if negb (api_okb g o) then Some (i, outside_code g o)
+          else if must_trap c o then Some (i, R_OUTER_NOT_DETECTED)
           else if negb (check_obs c g o ob =? 0) then Some (i, check_obs c g o ob)
           else
             let tbl' := if returns_ptr o then
@@ -348,9 +392,48 @@ Definition frame_size_of (st : state) (ev : event) : N :=
   | _ => 0
   end.
 
-Definition obs_of (st' : state) (ev : event) : oobs := mkObs ev (frame_size_of st' ev) true true.
+(* What the harness observes besides the result, computed here from the two model
+   states (S6): [o_intact] - every block live before the operation that the client
+   did not write itself has the same bytes afterwards (the harness compares shadow
+   copies); [o_prefix] - the common prefix of a reallocated block is at the new
+   place what it was at the old one.  Not extracted (sizes may be 2^60); proved
+   true for every API-respecting step in ArenaOracle.v. *)
+Definition cell_eqb (x y : cell) : bool :=
+  match x, y with
+  | CUndef, CUndef => true
+  | CByte a, CByte b => a =? b
+  | CNode t n i, CNode t' n' i' => (t =? t') && optloc_eqb n n' && (i =? i')
+  | _, _ => false
+  end.
 
-Fixpoint mtrace (c : cfg) (st : state) (tbl : list (option loc)) (ops : list hop)
+(* the n cells of m' from p on equal the n cells of m from q on *)
+Definition range_eqb (m' : mem) (p : loc) (m : mem) (q : loc) (n : N) : bool :=
+  forallb (fun i => cell_eqb (m' (fst p) (snd p + N.of_nat i)) (m (fst q) (snd q + N.of_nat i)))
+          (seq 0 (N.to_nat n)).
+
+Definition fill_missesb (o : op) (b : gblock) : bool :=
+  match o with
+  | Fill p n _ => (n =? 0) || (b_size b =? 0) || negb (Nat.eqb (fst p) (b_fi b))
+                  || (snd p + n <=? b_off b) || (b_end b <=? snd p)
+  | _ => true
+  end.
+
+Definition intact_obs (g : ghost) (o : op) (m m' : mem) : bool :=
+  forallb (fun b => negb (fill_missesb o b) || range_eqb m' (b_loc b) m (b_loc b) (b_size b)) (g_blocks g).
+
+Definition prefix_obs (o : op) (ev : event) (m m' : mem) : bool :=
+  match o, ev with
+  | Realloc _ (Some p) old new, EPtr (Some q) => range_eqb m' q m p (N.min old new)
+  | _, _ => true
+  end.
+
+Definition obs_of (g : ghost) (o : op) (st st' : state) (ev : event) : oobs :=
+  mkObs ev (frame_size_of st' ev)
+        (intact_obs g o (a_mem (st_a st)) (a_mem (st_a st')))
+        (prefix_obs o ev (a_mem (st_a st)) (a_mem (st_a st'))).
+
+(* the model's run with the client-side ghost threaded along *)
+Fixpoint mtrace (c : cfg) (st : state) (g : ghost) (tbl : list (option loc)) (ops : list hop)
   : list (hop * oobs) * option hop * ending :=
   match ops with
   | [] => ([], None, Done)
@@ -363,7 +446,8 @@ Fixpoint mtrace (c : cfg) (st : state) (tbl : list (option loc)) (ops : list hop
           let tbl' := if returns_ptr o' then
                         tbl ++ [match ev with EPtr p => p | _ => None end]
                       else tbl in
-          let '(tr, last, e) := mtrace c st' tbl' rest in ((o, obs_of st' ev) :: tr, last, e)
+          let '(tr, last, e) := mtrace c st' (gstep c g o' ev) tbl' rest in
+          ((o, obs_of g o' st st' ev) :: tr, last, e)
       | Trap => ([], Some o, Trapped)
       | Exit1 => ([], Some o, Exited)
       | Crash => ([], Some o, Crashed)
